@@ -1,5 +1,17 @@
 (* C15 — compiled automata accept exactly the language of the expression that
-   built them.  Statements only. *)
+   built them.  Statements only.
+   Counted (Theorem, 9 here + 3 in Props/C15Prod.v): C15_build, C15_compile,
+   C15_compile_total, C15_main, C15_main_unconditional, C15_terminal_dead,
+   C15_tags_reachable, C15_tags, C15_tags_tagged_choice; C15_production_event /
+   _command / _utf8.
+   Audited, not counted (Lemma): C15_build_wf, C15_build_keys, C15_matcher,
+   C15_isempty, C15_compile_fast, C15_tags_specs_agree,
+   C15_optional_inplace_refuted; Examples: *_nonvacuous.
+   Restrictions: DFA stepping theorems assume byte symbols (`bytes s`);
+   C15_compile assumes `keys_ok n`, C15_compile_total also `wf n` (both hold of
+   every `build e`); C15_tags_tagged_choice is the property's reading of tags
+   (tagged alternatives of a choice), C15_tags describes this construction for
+   tags anywhere.  See design/C15.md. *)
 From Coq Require Import List NArith Bool Lia.
 From SNT Require Automata.PathLemmas.
 From SNT Require Import Base.Outcome Automata.Regex Automata.NFA Automata.Build Automata.Compile
